@@ -98,6 +98,7 @@ type Cell struct {
 	atomicVC vclock // release clock when used as an atomic
 	atomicUsed bool
 	plainUsed  bool
+	ver        int // bumped on every atomic write (spin detection)
 }
 
 type Obj struct {
